@@ -112,11 +112,19 @@ def shrink_program(src, still_fails, max_steps=60):
 class LangRun:
     """one correspondence run over a list of labelled cases"""
 
-    def __init__(self, cases):
+    def __init__(self, cases, strict=False, tag="cases"):
         # cases: list of dict(src=..., ext=[...]|None, family=..., label=...)
         self.cases = cases
         self.outcomes = run_impl_many([(c["src"], c.get("ext")) for c in cases])
-        self.verdicts, self.errors = langcorr.evaluate(self.outcomes)
+        self.verdicts, self.errors = langcorr.evaluate(self.outcomes, tag=tag, strict=strict)
+        self.spec = list(langcorr.evaluate.last_spec)
+
+    def spec_counts(self):
+        c = {}
+        for v in self.spec:
+            k = langcorr.SPEC_VERDICTS.get(v, "not-run" if v is None else str(v))
+            c[k] = c.get(k, 0) + 1
+        return c
 
     def disagreements(self):
         return [i for i, v in enumerate(self.verdicts) if v not in (0, 9, None)]
@@ -161,7 +169,7 @@ def count_theorems(prop):
 
 
 def standard(prop, tier, seed, cases, classify, direct=None, known_match=None, extra_cov=None,
-             trusted=None, checker_note=""):
+             trusted=None, checker_note="", spec_codes=(11, 12, 13, 14)):
     """cases: list of dict(src, ext, family, label).
     classify(run, i, model) -> None | (tag, payload): does disagreement i exhibit a failure of THIS property?
     direct(run, chk): property oracles evaluated directly on the real outputs (may call chk.violation / chk.known)
@@ -203,9 +211,30 @@ def standard(prop, tier, seed, cases, classify, direct=None, known_match=None, e
                 corr_broken.append((i, langcorr.VERDICTS.get(run.verdicts[i])))
         for f, e in run.errors:
             corr_broken.append((-1, "coqc failed on %s: %s" % (os.path.basename(f), e[-200:])))
+        # specification oracle (reference semantics evaluated in Coq, lenient envelope) on the real outputs
+        nspec = 0
+        for i, sv in enumerate(run.spec):
+            if sv in spec_codes and nspec < 8:
+                nspec += 1
+                o = run.outcomes[i]
+                chk.violation("spec_%d" % i, {"kind": "program", "source": run.cases[i]["src"], "external_gates": run.cases[i].get("ext"),
+                                              "family": run.cases[i]["family"], "what": "implementation differs from the reference semantics (coq/Lang/Spec.v): "
+                                              + langcorr.SPEC_VERDICTS.get(sv, str(sv)),
+                                              "implementation": {k: o.get(k) for k in ("validate", "unroll", "unroll_msg")}})
         if direct:
             direct(run, chk)
-            found_input = found_input or bool(chk.violations)
+        found_input = found_input or bool(chk.violations)
+        # known findings stated against the full-strength (strict) reference semantics
+        kspec = [e for e in known if e.get("replay", {}).get("kind") == "spec-program"]
+        if kspec:
+            krun = LangRun([dict(src=e["replay"]["source"], ext=e["replay"].get("external_gates"), family="known") for e in kspec],
+                           strict=True, tag="known")
+            for e, sv, o in zip(kspec, krun.spec, krun.outcomes):
+                failing = sv in (11, 12, 13, 14)
+                if e["status"] == "known" and failing:
+                    chk.known("%s: %s" % (e["id"], e["what"][:100]))
+                if e["status"] == "fixed" and failing:
+                    chk.violation("regressed_%s" % e["id"], {"kind": "program", "finding": e, "spec_verdict": langcorr.SPEC_VERDICTS.get(sv)})
     if not proof_ok and not chk.violations:
         chk.violation("proof_broken", {"kind": "proof", "broken": res.failed_target or res.translator_error or
                                        ("axioms %s" % bad_axioms if bad_axioms else "hygiene %s" % hyg),
@@ -251,6 +280,7 @@ def standard(prop, tier, seed, cases, classify, direct=None, known_match=None, e
                     "non-trivial = distinct program that emits a quantum operation or is rejected",
             "families": run.family_counts(),
             "correspondence": run.counts(),
+            "specification_oracle": run.spec_counts(),
             "implementation_outcomes": _outcome_hist(run),
             "traces_validated_against_impl": sum(1 for v in run.verdicts if v == 0),
             "samples": [{"family": c["family"], "source": c["src"], "external_gates": c.get("ext")} for c in run.cases[:: max(1, len(run.cases) // 4)][:4]],
